@@ -85,6 +85,21 @@ def c02(trace, case, end):
     fast = bool(case.get('fast'))
     simname = 'fast' if fast else 'normal'
     stats = {'resting_filled': 0, 'resting_survived_a_phase': 0, 'market_filled': 0}
+    # a MARKET order placed from inside a fill handler: "the current price at the moment it is submitted" is the price of the fill
+    # that is being reported (whatever the framework shows as current price)
+    stack = []
+    for ev in trace:
+        if ev[0] == 'exec' and not ev[3]:
+            stack.append(ev[1])
+        elif ev[0] == 'exec_done' and stack and stack[-1] == ev[1]:
+            stack.pop()
+        elif ev[0] == 'submit' and ev[3] == 'MARKET' and stack and stack[-1] in orders and orders[stack[-1]]['symbol'] == ev[2] \
+                and orders[stack[-1]]['type'] != 'MARKET' and ev[9] and abs(1 - ev[6] / ev[9]) <= NEAR + 1e-9:
+            fillp = orders[stack[-1]]['price']
+            if abs(1 - ev[6] / fillp) > 2 * NEAR + 1e-9:
+                probs.append(('market-price', {'sim': simname, 'from_fill_handler': True},
+                              'MARKET order %d placed from the handler of the fill of order %d at %r is priced %r (shown current price %r)' % (ev[1], stack[-1], fillp, ev[6], ev[9])))
+                break
     for o in orders.values():
         sym = o['symbol']
         r = rng[sym]
